@@ -12,7 +12,7 @@ CONSTANTS
   MAXWC = 32767
   MaxRoots = 2
   MaxWRoots = 2
-  MaxOps = 7
+  MaxOps = 6
   MaxFaults = 0
   MaxTraceK = 0
   BUG_STALE_TC = FALSE
